@@ -51,7 +51,7 @@ func genC24(t *rapid.T) c24Case {
 	ii := func(l string) int { return rapid.IntRange(0, len(c24Ints)-1).Draw(t, l) }
 	dd := func(l string) int { return rapid.IntRange(0, len(c24Durs)-1).Draw(t, l) }
 	for i := 0; i < n; i++ {
-		u := c24Upd{API: pick(t, "api", "export", "export", "tuning", "policy", "getmodify", "getmodify"),
+		u := c24Upd{API: pick(t, "api", "export", "export", "tuning", "policy", "getmodify", "getmodify", "allow", "allow"),
 			TransferSize: ii("ts"), AttrCacheSize: ii("acs"), DirEntries: ii("de"), DirSize: ii("ds"), Workers: pick(t, "w", 0, 1, 2, 3), MaxConn: ii("mc"), SendBuf: ii("sb"), RecvBuf: ii("rb"),
 			AttrTTL: dd("attl"), NegTTL: dd("nttl"), DirTTL: dd("dttl"), Idle: dd("idle"), Timeouts: rapid.IntRange(0, 4).Draw(t, "to"),
 			ReadOnly: rapid.Bool().Draw(t, "ro"), DirCache: rapid.Bool().Draw(t, "dc"), NegCache: rapid.Bool().Draw(t, "nc"), RateLimit: rapid.Bool().Draw(t, "rl"),
@@ -212,6 +212,7 @@ func runC24(tb stat.TB, c c24Case) {
 					stat.Label("returned_options_share_storage_with_live_configuration", 1)
 					return
 				}
+				o.AllowedIPs = append([]string(nil), before.AllowedIPs...) // (the probe above scribbled on the list; the update keeps the list in force)
 				o.ReadOnly, o.Squash, o.MaxFileSize, o.TransferSize = u.ReadOnly, sq, int64(c24Ints[u.MaxFileSize]), c24Ints[u.TransferSize]
 				o.AttrCacheTimeout, o.AttrCacheSize, o.CacheNegativeLookups, o.NegativeCacheTimeout = c24Durs[u.AttrTTL], c24Ints[u.AttrCacheSize], u.NegCache, c24Durs[u.NegTTL]
 				o.EnableDirCache, o.MaxWorkers, o.EnableRateLimiting = u.DirCache, u.Workers, u.RateLimit
@@ -226,6 +227,36 @@ func runC24(tb stat.TB, c c24Case) {
 				})
 			case "policy":
 				err = s.e.NFS.UpdatePolicyOptions(absnfs.PolicyOptions{ReadOnly: u.ReadOnly, Squash: sq, MaxFileSize: int64(c24Ints[u.MaxFileSize]), EnableRateLimiting: u.RateLimit, RateLimitConfig: rlc})
+			case "allow":
+				// the documented way of changing one setting: read the options, edit a copy, write them back - here one
+				// more allowed host is appended (the harness' own address first, so that it stays served), nothing else
+				o := s.e.NFS.GetExportOptions()
+				want := append([]string(nil), o.AllowedIPs...)
+				if len(want) == 0 {
+					want = append(want, "127.0.0.1")
+				} else {
+					want = append(want, fmt.Sprintf("10.7.0.%d", len(want)))
+				}
+				o.AllowedIPs = append([]string(nil), want...)
+				err = s.e.NFS.UpdateExportOptions(o)
+				if err == nil {
+					got := s.e.NFS.GetExportOptions().AllowedIPs
+					if fmt.Sprint(got) != fmt.Sprint(want) {
+						if stat.Violate(tb, id, check, "accepted-update-not-in-force:AllowedIPs", c, "%s: UpdateExportOptions(GetExportOptions() with AllowedIPs = %v) returned nil, GetExportOptions().AllowedIPs = %v", what, want, got) {
+							return
+						}
+					}
+					// in force: an address that is not listed is refused, the last one listed is served
+					probe := func(ip string) bool {
+						rp, perr := s.e.Call(drv.Client{IP: ip, Port: 700, Cred: drv.Root().Cred}, nfsx.ProgNFS, 3, 0, nil)
+						return perr == nil && rp.Stat == nfsx.MsgAccepted
+					}
+					if probe("192.0.2.99") || !probe(want[len(want)-1]) {
+						if stat.Violate(tb, id, check, "reported-differs-from-in-force:AllowedIPs", c, "%s: AllowedIPs reported %v, but 192.0.2.99 served=%v and %s served=%v", what, got, probe("192.0.2.99"), want[len(want)-1], probe(want[len(want)-1])) {
+							return
+						}
+					}
+				}
 			}
 			if zeroish {
 				nt = true
